@@ -22,7 +22,10 @@ TRUSTED = [
     "abstract meaning `sem` of each statement on a column state (a statement that names a column name the column does not "
     "have at that point fails; MySQL CHANGE/MODIFY replace the whole definition; "
     "MSSQL ALTER COLUMN without NULL/NOT NULL makes the column nullable; Oracle DEFAULT NULL / COMMENT '' clear)",
-    "SQLAlchemy type / default / literal rendering is an opaque token (one token per catalogue value and dialect)",
+    "SQLAlchemy type rendering is an opaque token (one token per catalogue type and dialect); string literals (defaults, "
+    "comments) are lexed back to their VALUE with the dialect's literal rules as SQLAlchemy declares them ('' always, \\\\ when "
+    "dialect._backslash_escapes, %% when the preparer doubles percent signs), cf. C14_strlit_roundtrip; a malformed literal or "
+    "a value outside the catalogue becomes an id nothing requests, so the decider rejects it",
 ]
 ASSUME = [
     "server defaults are plain strings, sqlalchemy.Computed or sqlalchemy.Identity objects (one catalogue object per kind and "
@@ -63,8 +66,24 @@ TYPES = {"T0": (10, False), "T1": (11, False), "B0": (12, False), "E1": (13, Fal
 CK_IDS = {"ckb": 50, "cke": 51}         # names of the type-bound CHECKs of B0 (Boolean) and E1 (non-native Enum)
 DEFAULT_IDS = {"7": 7, "9": 9}          # existing default text '7', requested '9'
 # default codes: F absent(False) / N None / S plain string / C Computed / I Identity.  Coq ids and kinds:
-REQ_DEFAULT = {"S": (9, "KPlain"), "C": (81, "KComputed"), "I": (71, "KIdentity")}
-EX_DEFAULT = {"S": (7, "KPlain"), "C": (80, "KComputed"), "I": (70, "KIdentity")}
+REQ_DEFAULT = {"S": (9, "KPlain"), "C": (81, "KComputed"), "I": (71, "KIdentity"),
+               # plain strings whose VALUE needs care in a SQL literal: quote, backslash, percent, double quote, empty, non-ASCII
+               "Q": (101, "KPlain"), "B": (102, "KPlain"), "P": (103, "KPlain"), "D": (104, "KPlain"), "Z": (105, "KPlain"),
+               "U": (106, "KPlain")}
+EX_DEFAULT = {"S": (7, "KPlain"), "C": (80, "KComputed"), "I": (70, "KIdentity"), "Q": (107, "KPlain")}
+DEFAULT_TEXT = {"S": "9", "Q": "it's", "B": "a\\b", "P": "50%", "D": 'say "hi"', "Z": "", "U": "na\u00efve \u00e9t\u00e9"}
+EX_DEFAULT_TEXT = {"S": "7", "Q": "o'clock"}
+REQ_COMMENT = {"S": 31, "Q": 111, "B": 112, "P": 113, "U": 114}
+COMMENT_TEXT = {"S": "nc", "Q": "it's", "B": "a\\b", "P": "50%", "U": "na\u00efve"}
+EX_COMMENT = {"S": 30, "Q": 115}
+EX_COMMENT_TEXT = {"S": "oc", "Q": "o'clock"}
+# decoded VALUE of a literal -> id (what the model's statements carry); a value outside the catalogue or a malformed literal
+# gets an id nothing requests or states, so the decider rejects it
+DEFAULT_VALUE_IDS = {DEFAULT_TEXT[k]: REQ_DEFAULT[k][0] for k in DEFAULT_TEXT}
+DEFAULT_VALUE_IDS.update({EX_DEFAULT_TEXT[k]: EX_DEFAULT[k][0] for k in EX_DEFAULT_TEXT})
+COMMENT_VALUE_IDS = {COMMENT_TEXT[k]: REQ_COMMENT[k] for k in COMMENT_TEXT}
+COMMENT_VALUE_IDS.update({EX_COMMENT_TEXT[k]: EX_COMMENT[k] for k in EX_COMMENT_TEXT})
+FOREIGN_VALUE, MALFORMED_LITERAL = 996, 997
 COMMENT_IDS = {"oc": 30, "nc": 31}      # existing comment, requested comment
 NAME_IDS = {"c": 1, "d": 2}
 SCHEMA_IDS = {"s": 60}                  # Spec.C13: tS = (Some 60, 61), tN = (None, 61)
@@ -110,7 +129,8 @@ def smoke():
             _req("T1", None, "F", None, "F", None), _req(None, True, "F", None, "F", None), _req(None, None, "S", None, "F", None),
             _req(None, None, "N", None, "F", None), _req(None, None, "F", None, "N", None), _req(None, None, "F", None, "F", True),
             _req("T1", None, "F", None, "F", None, "u1"), _req(None, False, "F", "d", "F", None), _req("T1", True, "N", None, "E", None),
-            _req(None, None, "I", None, "F", None)]
+            _req(None, None, "I", None, "F", None), _req(None, None, "Q", None, "F", None), _req(None, True, "B", "d", "Q", None),
+            _req(None, None, "P", None, "P", None)]
     exs = [_ex(None, None, "F", None, None), _ex("T0", True, "S", "S", False)]
     for d in DIALECTS:
         for r in reqs:
@@ -136,6 +156,8 @@ RULE = (
     "lattice with server_default/comment in {absent, value} (toimpl's DROP/ADD CONSTRAINT). Both tiers start with the corpus, a "
     "fixed 203-case smoke slice, then on every dialect: server_default / existing_server_default in {absent, None, plain, "
     "Computed, Identity} with at least one Computed/Identity x a presence lattice; comment='' / existing_comment=''; "
+    "string defaults and comments whose VALUE needs care in a literal (it's, a\\b, 50%, say \"hi\", empty, non-ASCII; the "
+    "tokenizer lexes the literal with the dialect's rules and the statement carries the decoded value); "
     "batch_alter_table(...).alter_column on every dialect but sqlite (no recreate). thorough: all seven dialects complete x {schema, no "
     "schema}, mysql/mariadb with DateTime types, plus on every dialect a slice with requested type == existing type / DateTime types "
     "a slice with postgresql_using and the schema-type slice on the full presence lattice. non-trivial = no exception and at least one statement emitted; distinct by encoded input")
@@ -153,6 +175,11 @@ def _special_slices(tier):
         yield from lattice(d, [None, "T1"], [None, "T0"], "alt", rnull=PRES, rauto=[None], enull=[None, False], eauto=[None],
                            rdef="FS", edef="FS", rcom="E" if not full else "FE", ecom=[None, "S", "E"],
                            keep=(lambda rd, ed: True))
+        # the VALUE of string defaults / comments: quote, backslash, percent, double quote, empty, non-ASCII
+        yield from lattice(d, [None, "T1"], [None, "T0"], "alt", rnull=PRES, rauto=[None], enull=[None], eauto=[None],
+                           rdef="QBPDZU", edef="FSQ", rcom="F", ecom=[None, "Q"], keep=(lambda rd, ed: True))
+        yield from lattice(d, [None, "T1"], [None, "T0"], "alt", rnull=PRES, rauto=[None], enull=[None], eauto=[None],
+                           rdef="FQ", edef="FQ", rcom="QBPU", ecom=[None, "S", "Q"], keep=(lambda rd, ed: True))
         # batch mode without recreate: BatchOperations.alter_column forwarded to the dialect impl
         if d != "sqlite":
             yield from lattice(d, [None, "T1", "E1"] if full else [None, "T1"], [None, "T0", "B0"] if full else [None, "T0"], "alt",
@@ -216,8 +243,10 @@ def _b(x):
     return "true" if x else "false"
 
 
-def _tri(code, val):
-    return {"F": "TFalse", "N": "TNone", "E": "TNone", "S": "(TSome %d)" % val}[code]      # E: '' encoded as None
+def _tri(code, table):
+    if code in table:
+        return "(TSome %d)" % table[code]
+    return {"F": "TFalse", "N": "TNone", "E": "TNone"}[code]      # E: '' encoded as None
 
 
 def _dflt(code, table):
@@ -232,10 +261,10 @@ def encode_in(h):
     ed, ek = _dflt(e["default"], EX_DEFAULT)
     req = "(mkReq %s %s %s %s %s %s %s %s)" % (
         _opt(r["type"], lambda t: _ty(t, h["d"])), _opt(r["null"], _b), rd, _opt(r["name"], lambda n: str(NAME_IDS[n])),
-        _tri(r["comment"], 31), _opt(r["autoinc"], _b), _opt(r.get("using"), lambda u: str(USING_IDS[u])), rk)
+        _tri(r["comment"], REQ_COMMENT), _opt(r["autoinc"], _b), _opt(r.get("using"), lambda u: str(USING_IDS[u])), rk)
     ex = "(mkEx 1 %s %s %s %s %s %s)" % (
         _opt(e["type"], lambda t: _ty(t, h["d"])), _opt(e["null"], _b), ed,
-        "(Some 30)" if e["comment"] == "S" else "None", _opt(e["autoinc"], _b), ek)
+        "(Some %d)" % EX_COMMENT[e["comment"]] if e["comment"] in EX_COMMENT else "None", _opt(e["autoinc"], _b), ek)
     return "(mkIn %s %s %s %s)" % (COQ_DIALECT[h["d"]], "tS" if h["schema"] else "tN", req, ex)
 
 
@@ -329,7 +358,11 @@ def _context(dn):
     tokens = {tc.process(o()): k for k, o in objs.items()}
     assert len(tokens) == len(TYPES), (dn, tokens)
     ck = {k: _counted_constraint(mk, o()) for k, o in objs.items()}
-    _CTX[dn] = (mk, objs, tokens, ck)
+    dia = mk(io.StringIO()).impl.dialect
+    # SQLAlchemy's own string-literal conventions for this dialect (render_literal_value): '' for a quote always,
+    # \\ for a backslash when the dialect escapes backslashes, %% for a percent sign when the DBAPI paramstyle needs it
+    flags = (bool(getattr(dia, "_backslash_escapes", False)), bool(getattr(dia.identifier_preparer, "_double_percents", False)))
+    _CTX[dn] = (mk, objs, tokens, ck, flags)
     return _CTX[dn]
 
 
@@ -339,7 +372,7 @@ def call_real(h):
     from alembic.util import CommandError
     from sqlalchemy import exc as sa_exc
     import sqlalchemy as sa
-    mk, objs, _, _ = _context(h["d"])
+    mk, objs = _context(h["d"])[:2]
     r, e = h["req"], h["ex"]
     kw = {}
     if r["type"] is not None:
@@ -347,12 +380,13 @@ def call_real(h):
     if r["null"] is not None:
         kw["nullable"] = r["null"]
     if r["default"] != "F":
-        kw["server_default"] = {"N": lambda: None, "S": lambda: "9", "C": lambda: sa.Computed("x + 1"),
-                                "I": lambda: sa.Identity(always=True, start=1, increment=5)}[r["default"]]()
+        kw["server_default"] = DEFAULT_TEXT[r["default"]] if r["default"] in DEFAULT_TEXT else \
+            {"N": lambda: None, "C": lambda: sa.Computed("x + 1"),
+             "I": lambda: sa.Identity(always=True, start=1, increment=5)}[r["default"]]()
     if r["name"] is not None:
         kw["new_column_name"] = r["name"]
     if r["comment"] != "F":
-        kw["comment"] = {"N": None, "S": "nc", "E": ""}[r["comment"]]
+        kw["comment"] = COMMENT_TEXT[r["comment"]] if r["comment"] in COMMENT_TEXT else {"N": None, "E": ""}[r["comment"]]
     if r["autoinc"] is not None:
         kw["autoincrement"] = r["autoinc"]
     if r.get("using") is not None:
@@ -362,10 +396,10 @@ def call_real(h):
     if e["null"] is not None:
         kw["existing_nullable"] = e["null"]
     if e["default"] != "F":
-        kw["existing_server_default"] = {"N": lambda: None, "S": lambda: "7", "C": lambda: sa.Computed("x + 2"),
-                                         "I": lambda: sa.Identity(start=1, increment=1)}[e["default"]]()
+        kw["existing_server_default"] = EX_DEFAULT_TEXT[e["default"]] if e["default"] in EX_DEFAULT_TEXT else \
+            {"N": lambda: None, "C": lambda: sa.Computed("x + 2"), "I": lambda: sa.Identity(start=1, increment=1)}[e["default"]]()
     if e["comment"] is not None:
-        kw["existing_comment"] = "oc" if e["comment"] == "S" else ""
+        kw["existing_comment"] = EX_COMMENT_TEXT.get(e["comment"], "")
     if e["autoinc"] is not None:
         kw["existing_autoincrement"] = e["autoinc"]
     buf = io.StringIO()
@@ -404,6 +438,43 @@ def split_statements(dn, text):
     if not text.endswith(sep):
         raise ValueError("output does not end with the statement terminator: %r" % text)
     return text[:-len(sep)].split(sep)
+
+
+def _decode(dn, tok):
+    """the VALUE of one SQL string literal of dialect dn (lexed with the dialect's literal rules), or None when tok is not
+    exactly one well-formed literal"""
+    bs, dp = _context(dn)[4]
+    if len(tok) < 2 or tok[0] != "'" or tok[-1] != "'":
+        return None
+    inner, out, i = tok[1:-1], [], 0
+    while i < len(inner):
+        ch = inner[i]
+        nxt = inner[i + 1] if i + 1 < len(inner) else None
+        if ch == "'":
+            if nxt != "'":
+                return None
+            out.append("'"); i += 2
+        elif ch == "\\" and bs:
+            if nxt != "\\":
+                return None
+            out.append("\\"); i += 2
+        elif ch == "%" and dp:
+            if nxt != "%":
+                return None
+            out.append("%"); i += 2
+        else:
+            out.append(ch); i += 1
+    return "".join(out)
+
+
+def _dval(dn, tok):
+    v = _decode(dn, tok)
+    return MALFORMED_LITERAL if v is None else DEFAULT_VALUE_IDS.get(v, FOREIGN_VALUE)
+
+
+def _cval(dn, tok):
+    v = _decode(dn, tok)
+    return MALFORMED_LITERAL if v is None else (None if v == "" else COMMENT_VALUE_IDS.get(v, FOREIGN_VALUE))
 
 
 def _lit(s):
@@ -450,33 +521,32 @@ def parse_statement(dn, s, tokens):
         m = re.fullmatch(AT + "MODIFY " + COL + r" (NULL|NOT NULL)", s)
         if m:
             return _target(m), ("SetNull", col(m), m.group(4) == "NULL")
-        m = re.fullmatch(AT + "MODIFY " + COL + r" DEFAULT (NULL|'[^']*')", s)
+        m = re.fullmatch(AT + "MODIFY " + COL + r" DEFAULT (NULL|'.*')", s)
         if m:
-            return _target(m), ("SetDefault", col(m), None if m.group(4) == "NULL" else DEFAULT_IDS[_lit(m.group(4))])
+            return _target(m), ("SetDefault", col(m), None if m.group(4) == "NULL" else _dval(dn, m.group(4)))
         m = re.fullmatch(AT + "MODIFY " + COL + r" (%s)" % ty_alt, s)
         if m:
             return _target(m), ("SetType", col(m), tokens[m.group(4)], None)
-        m = re.fullmatch(r"COMMENT ON COLUMN " + TBL + r"\." + COL + r" IS ('[^']*')", s)
+        m = re.fullmatch(r"COMMENT ON COLUMN " + TBL + r"\." + COL + r" IS ('.*')", s)
         if m:
-            c = _lit(m.group(4))
-            return _target(m), ("SetComment", col(m), None if c == "" else COMMENT_IDS[c])
+            return _target(m), ("SetComment", col(m), _cval(dn, m.group(4)))
         m = re.fullmatch(AT + "RENAME COLUMN " + COL + r" TO (\w+)", s)
         if m:
             return _target(m), ("Rename", col(m), NAME_IDS[m.group(4)])
         raise ValueError("unrecognised oracle statement: %r" % s)
     if mysql:
         m = re.fullmatch(AT + r"(?P<kw>MODIFY|CHANGE) " + COL + r"(?P<new> \w+)? (?P<ty>%s) (?P<nl>NULL|NOT NULL)(?P<ai> AUTO_INCREMENT)?"
-                         r"(?: DEFAULT (?P<df>'[^']*'))?(?: COMMENT (?P<cm>'[^']*'))?" % ty_alt, s)
+                         r"(?: DEFAULT (?P<df>'.*?'))?(?: COMMENT (?P<cm>'.*'))?" % ty_alt, s)
         if m and (m.group("kw") == "CHANGE") == (m.group("new") is not None):
             spec = {"type": tokens[m.group("ty")], "null": m.group("nl") == "NULL", "autoinc": bool(m.group("ai")),
-                    "default": None if m.group("df") is None else DEFAULT_IDS[_lit(m.group("df"))],
-                    "comment": None if m.group("cm") is None else COMMENT_IDS[_lit(m.group("cm"))]}
+                    "default": None if m.group("df") is None else _dval(dn, m.group("df")),
+                    "comment": None if m.group("cm") is None else _cval(dn, m.group("cm"))}
             if m.group("kw") == "CHANGE":
                 return _target(m), ("MySQLChange", col(m), NAME_IDS[m.group("new").strip()], spec)
             return _target(m), ("MySQLModify", col(m), spec)
-        m = re.fullmatch(AT + "ALTER COLUMN " + COL + r" (DROP DEFAULT|SET DEFAULT (?P<df>'[^']*'))", s)
+        m = re.fullmatch(AT + "ALTER COLUMN " + COL + r" (DROP DEFAULT|SET DEFAULT (?P<df>'.*'))", s)
         if m:
-            return _target(m), ("MySQLAlterDefault", col(m), None if m.group("df") is None else DEFAULT_IDS[_lit(m.group("df"))])
+            return _target(m), ("MySQLAlterDefault", col(m), None if m.group("df") is None else _dval(dn, m.group("df")))
         raise ValueError("unrecognised mysql statement: %r" % s)
     if dn == "mssql":
         m = re.fullmatch(AT + "ALTER COLUMN " + COL + r" (?P<ty>%s) (?P<nl>NULL|NOT NULL)" % ty_alt, s)
@@ -485,9 +555,9 @@ def parse_statement(dn, s, tokens):
         m = re.fullmatch(AT + "ALTER COLUMN " + COL + r" (?P<ty>%s)" % ty_alt, s)
         if m:
             return _target(m), ("MSSQLAlterType", col(m), tokens[m.group("ty")])
-        m = re.fullmatch(AT + r"ADD DEFAULT (?P<df>'[^']*') FOR " + COL, s)
+        m = re.fullmatch(AT + r"ADD DEFAULT (?P<df>'.*') FOR " + COL, s)
         if m:
-            return _target(m), ("MSSQLAddDefault", col(m), DEFAULT_IDS[_lit(m.group("df"))])
+            return _target(m), ("MSSQLAddDefault", col(m), _dval(dn, m.group("df")))
         m = re.fullmatch(r"EXEC sp_rename '" + TBL + r"\." + COL + r"', (?P<new>\w+), 'COLUMN'", s)
         if m:
             return _target(m), ("MSSQLSpRename", col(m), NAME_IDS[m.group("new")])
@@ -505,9 +575,9 @@ def parse_statement(dn, s, tokens):
     m = re.fullmatch(AT + "ALTER COLUMN " + COL + r" (?P<k>SET|DROP) NOT NULL", s)
     if m:
         return _target(m), ("SetNull", col(m), m.group("k") == "DROP")
-    m = re.fullmatch(AT + "ALTER COLUMN " + COL + r" (DROP DEFAULT|SET DEFAULT (?P<df>'[^']*'))", s)
+    m = re.fullmatch(AT + "ALTER COLUMN " + COL + r" (DROP DEFAULT|SET DEFAULT (?P<df>'.*'))", s)
     if m:
-        return _target(m), ("SetDefault", col(m), None if m.group("df") is None else DEFAULT_IDS[_lit(m.group("df"))])
+        return _target(m), ("SetDefault", col(m), None if m.group("df") is None else _dval(dn, m.group("df")))
     if dn == "postgresql":
         m = re.fullmatch(AT + "ALTER COLUMN " + COL + " ADD " + IDENT_FULL, s)
         if m:
@@ -524,9 +594,9 @@ def parse_statement(dn, s, tokens):
         m = re.fullmatch(AT + "ALTER COLUMN " + COL + r" TYPE (?P<ty>%s)(?: USING (?P<u>\w+))? ?" % ty_alt, s)
         if m:
             return _target(m), ("SetType", col(m), tokens[m.group("ty")], None if m.group("u") is None else USING_IDS[m.group("u")])
-        m = re.fullmatch(r"COMMENT ON COLUMN " + TBL + r"\." + COL + r" IS (?P<cm>NULL|'[^']*')", s)
+        m = re.fullmatch(r"COMMENT ON COLUMN " + TBL + r"\." + COL + r" IS (?P<cm>NULL|'.*')", s)
         if m:
-            return _target(m), ("SetComment", col(m), None if m.group("cm") in ("NULL", "''") else COMMENT_IDS[_lit(m.group("cm"))])
+            return _target(m), ("SetComment", col(m), None if m.group("cm") == "NULL" else _cval(dn, m.group("cm")))
         m = re.fullmatch(AT + "RENAME " + COL + r" TO (?P<new>\w+)", s)
         if m:
             return _target(m), ("Rename", col(m), NAME_IDS[m.group("new")])
@@ -541,7 +611,7 @@ def parse_statement(dn, s, tokens):
 
 
 def tokenize(h, text):
-    _, _, tokens, _ = _context(h["d"])
+    tokens = _context(h["d"])[2]
     return [parse_statement(h["d"], s, tokens) for s in split_statements(h["d"], text)]
 
 
@@ -580,9 +650,10 @@ def _req_stated(h):
                                                         (v[code][0] if isinstance(v, dict) else v))
     opt = lambda x: _NOTHING if x is None else x
     req = {"name": opt(NAME_IDS.get(r["name"])), "type": opt(r["type"]), "null": opt(r["null"]),
-           "default": tri(r["default"], REQ_DEFAULT), "comment": tri(r["comment"], 31), "autoinc": opt(r["autoinc"])}
+           "default": tri(r["default"], REQ_DEFAULT), "comment": tri(r["comment"], {k: (v,) for k, v in REQ_COMMENT.items()}),
+           "autoinc": opt(r["autoinc"])}
     stated = {"name": 1, "type": opt(e["type"]), "null": opt(e["null"]), "default": tri(e["default"], EX_DEFAULT),
-              "comment": 30 if e["comment"] == "S" else _NOTHING, "autoinc": opt(e["autoinc"])}
+              "comment": EX_COMMENT.get(e["comment"], _NOTHING), "autoinc": opt(e["autoinc"])}
     return req, stated
 
 
